@@ -528,9 +528,29 @@ class Evaluator:
     def assign(self, t, v: Val, st: State, node, aug=False):
         if isinstance(t, ast.Name):
             if aug and isinstance(st.env.get(t.id), Num) and st.env[t.id].length is not None:
+                cur = st.env[t.id]
+                if getattr(cur, 'view', False):
+                    # `view += v`: the update lands in the array the view was sliced from
+                    through = self._view_store(ast.Subscript(value=t, slice=ast.Constant(value=Ellipsis), ctx=ast.Store()), cur, Const(Ellipsis), st)
+                    if isinstance(through, tuple):
+                        pname, pidx = through
+                        self.__dict__.setdefault('_view_written', set()).add(pname)
+                        parent = st.env[pname]
+                        self.emit('store', st, node, target=pname, base=parent, index=pidx, value=v, aug=True, whole=False,
+                                  target_expr=ast.copy_location(ast.Name(id=pname, ctx=ast.Load()), t))
+                        newp = Term('stored', (parent,), uid=fresh_serial(), kind=getattr(parent, 'kind', 'unknown'))
+                        st.env[pname] = term_as_num(newp, True, getattr(parent, 'kind', None)) if isinstance(parent, Num) else newp
+                        st.env[t.id] = v
+                        return
+                    self.issue(st, node, f"in-place update of {t.id}, a view of an array that is not held by a local name")
                 # `a += v` on an array name mutates the array in place
                 self.emit('store', st, node, target=t.id, base=st.env[t.id], index=None, value=v, aug=True, whole=True,
                           target_expr=t)
+            elif aug and isinstance(st.env.get(t.id), (Term, Gam)) and getattr(st.env[t.id], 'kind', 'unknown') in ('ndarray', 'ndarray2d', 'unknown', 'list') \
+                    and not (isinstance(st.env[t.id], Term) and st.env[t.id].head in ('loopvar', 'param')):
+                # an in-place update of something that may be an array (or a view of one) the evaluator has not resolved: what it writes is not known
+                self.issue(st, node, f"in-place update `{t.id} {type(getattr(node, 'op', None)).__name__}= ...` of a value that is not resolved "
+                                     f"({str(st.env[t.id])[:60]}): it may write into an array through a view")
             st.env[t.id] = v
         elif isinstance(t, (ast.Tuple, ast.List)):
             items = self.unpack(v, len(t.elts), st, node)
@@ -3744,6 +3764,10 @@ def b_range(ev, pos, kw, st, node):
 
 
 def b_zip(ev, pos, kw, st, node):
+    if pos and not kw and all(isinstance(p_, Tup) for p_ in pos):
+        # zip of sequence displays: the tuples, item by item (as many as the shortest display has)
+        k_ = min(len(p_.items) for p_ in pos)
+        return Tup([Tup([p_.items[i_] for p_ in pos], 'tuple') for i_ in range(k_)], 'list')
     return Term('zip', pos)
 
 
@@ -3881,6 +3905,16 @@ def b_list(ev, pos, kw, st, node):
     return None
 
 
+def b_tuple(ev, pos, kw, st, node):
+    """tuple(<sequence display / comprehension over a literal table>): the same items as a tuple"""
+    if not pos:
+        return Tup([], 'tuple')
+    v = pos[0]
+    if isinstance(v, Tup):
+        return Tup(v.items, 'tuple')
+    return None
+
+
 def b_exc(name):
     def h(ev, pos, kw, st, node):
         return Term('exception', (Const(name),) + tuple(pos))
@@ -3889,7 +3923,7 @@ def b_exc(name):
 
 BUILTIN_HANDLERS = {'setattr': b_setattr, 'slice': b_slice, 'len': b_len, 'int': b_int, 'round': b_round, 'float': b_float, 'abs': b_abs, 'min': _minmax('min'), 'max': _minmax('max'),
                     'range': b_range, 'zip': b_zip, 'map': b_map, 'enumerate': b_enumerate, 'isinstance': b_isinstance,
-                    'getattr': b_getattr, 'next': b_next, 'iter': b_iter, 'bool': b_bool, 'list': b_list, 'dict': b_dict, 'divmod': b_divmod, 'vars': b_vars}
+                    'getattr': b_getattr, 'next': b_next, 'iter': b_iter, 'bool': b_bool, 'list': b_list, 'tuple': b_tuple, 'dict': b_dict, 'divmod': b_divmod, 'vars': b_vars}
 for _n in ('ValueError', 'IndexError', 'OSError', 'TypeError', 'KeyError', 'AttributeError', 'Exception', 'RuntimeError'):
     BUILTIN_HANDLERS[_n] = b_exc(_n)
 
